@@ -318,10 +318,16 @@ class H:
             rec["discharged"] += 1
             return True
         elif st == "sat":
+            if self.harness.abstract:
+                more = rec.setdefault("all_counter_models", [])
+                if len(more) < 6:
+                    more.append(_render(sorted((str(d.name()), str(model[d])) for d in model.decls() if d.arity() == 0)))
             if rec["status"] != "refuted":
                 rec["status"] = "refuted"
                 rec["model"] = self._model_values(model)
                 rec["detail"] = _render(detail) if detail is not None and not callable(detail) else None
+                if rec["detail"] is None and self.harness.abstract:
+                    rec["detail"] = "solver counter-model (abstract): " + rec["all_counter_models"][0]
                 rec["path"] = len(eng.pc)
             return False
         else:
@@ -498,7 +504,7 @@ def run_proof(harness: Harness, tier="quick", seed=0, crosscheck=3):
     vcs = disc = 0
     worst = "proved"
     for cname, rec in h.clauses.items():
-        out["clauses"][cname] = {k: rec[k] for k in ("status", "vcs", "discharged", "trivial", "detail", "model") if k in rec}
+        out["clauses"][cname] = {k: rec[k] for k in ("status", "vcs", "discharged", "trivial", "detail", "model", "all_counter_models") if k in rec}
         out["clauses"][cname]["time"] = round(rec["time"], 4)
         if "cvc5" in rec:
             out["clauses"][cname]["cvc5"] = rec["cvc5"]
